@@ -7,6 +7,8 @@ HLCTS = dict(file="happysimulator/core/logical_clocks.py", cls="HLCTimestamp", t
              methods={"__lt__": dict(params={"other": "HLCTimestamp"}, pure=True),
                       "__eq__": dict(params={"other": "HLCTimestamp"}, pure=True)})
 
+POLICY = "happysimulator/components/rate_limiter/policy.py"
+
 TARGETS = {
     "ClocksGen": dict(
         out="Gen/ClocksGen.v", tie="C18/GenTie.v",
@@ -33,6 +35,36 @@ TARGETS = {
                  fields={"_node_id": "Z", "_value": "Z", "_timestamp": "opt HLCTimestamp"},
                  methods={"set": dict(params={"value": "Z", "timestamp": "HLCTimestamp"}),
                           "merge": dict(params={"other": "LWWRegister"})}),
+        ],
+    ),
+    "PolicyGen": dict(
+        out="Gen/PolicyGen.v", tie="C10/GenTie.v", numeric="numops",
+        header="From HS Require Import Base.Prelude Base.PyLib C10.Model.",
+        classes=[
+            dict(file=POLICY, cls="TokenBucketPolicy",
+                 fields={"_capacity": "F", "_refill_rate": "F", "_tokens": "F", "_last_refill_time": "opt I"},
+                 methods={"_refill": dict(params={"now": "I"}), "try_acquire": dict(params={"now": "I"}),
+                          "time_until_available": dict(params={"now": "I"})}),
+            dict(file=POLICY, cls="LeakyBucketPolicy",
+                 fields={"_leak_rate": "F", "_leak_interval": "F", "_last_leak_time": "opt I"},
+                 methods={"try_acquire": dict(params={"now": "I"}), "time_until_available": dict(params={"now": "I"}, pure=True)}),
+            dict(file=POLICY, cls="SlidingWindowPolicy",
+                 fields={"_window_size": "F", "_max_requests": "Z", "_request_log": "list I"},
+                 methods={"_prune": dict(params={"now": "I"}), "try_acquire": dict(params={"now": "I"}),
+                          "time_until_available": dict(params={"now": "I"})}),
+            dict(file=POLICY, cls="FixedWindowPolicy",
+                 fields={"_requests_per_window": "Z", "_window_size": "F", "_current_window_start": "opt I", "_current_window_count": "Z"},
+                 methods={"_get_window_start": dict(params={"now": "I"}, pure=True), "_maybe_reset": dict(params={"now": "I"}),
+                          "try_acquire": dict(params={"now": "I"}), "time_until_available": dict(params={"now": "I"})}),
+        ],
+    ),
+    "EventGen": dict(
+        out="Gen/EventGen.v", tie="C01/GenTie.v",
+        header="From HS Require Import Base.Prelude Base.PyLib.",
+        classes=[
+            dict(file="happysimulator/core/event.py", cls="Event",
+                 fields={"time": "I", "_sort_index": "Z"},
+                 methods={"__lt__": dict(params={"other": "Event"}, pure=True)}),
         ],
     ),
 }
